@@ -40,6 +40,7 @@ static SEQ: AtomicU64 = AtomicU64::new(0);
 static LOG: Mutex<Vec<Ev>> = Mutex::new(Vec::new());
 static SCRIPT: Mutex<Option<(i32, VecDeque<Beh>)>> = Mutex::new(None);
 static FAIL_MMAP: AtomicU64 = AtomicU64::new(0);
+static FAIL_MMAP_AFTER: AtomicU64 = AtomicU64::new(u64::MAX);
 
 /// Handler for ioctl requests (Xen emulator): returns Some(ret) if it handled the request.
 pub type IoctlHandler = fn(fd: i32, req: u64, arg: *mut libc::c_void) -> Option<i32>;
@@ -73,6 +74,11 @@ pub fn clear_script() -> usize {
 /// Make the next `n` mmap calls fail with ENOMEM.
 pub fn fail_next_mmaps(n: u64) {
     FAIL_MMAP.store(n, Ordering::SeqCst);
+}
+
+/// Let `k` more mmap calls through, then fail one with ENOMEM (u64::MAX: disabled).
+pub fn fail_mmap_after(k: u64) {
+    FAIL_MMAP_AFTER.store(k, Ordering::SeqCst);
 }
 
 fn log(e: Ev) {
@@ -118,6 +124,17 @@ mod syms {
             set_errno(libc::ENOMEM);
             log(Ev::Mmap { addr: addr as usize, len, prot, flags, fd, off, ret: usize::MAX, errno: libc::ENOMEM });
             return libc::MAP_FAILED;
+        }
+        if ARMED.load(Ordering::Relaxed) {
+            let k = FAIL_MMAP_AFTER.load(Ordering::SeqCst);
+            if k == 0 {
+                FAIL_MMAP_AFTER.store(u64::MAX, Ordering::SeqCst);
+                set_errno(libc::ENOMEM);
+                log(Ev::Mmap { addr: addr as usize, len, prot, flags, fd, off, ret: usize::MAX, errno: libc::ENOMEM });
+                return libc::MAP_FAILED;
+            } else if k != u64::MAX {
+                FAIL_MMAP_AFTER.store(k - 1, Ordering::SeqCst);
+            }
         }
         let r = libc::syscall(libc::SYS_mmap, addr, len, prot, flags, fd, off);
         let e = if r == -1 { errno() } else { 0 };
